@@ -216,6 +216,59 @@ let string_of_event = function
   | M.Rx (Some d, dt) -> "R" ^ hex_of_bytes d ^ "@" ^ string_of_n dt
   | M.Flush -> "F" | M.Recover -> "V"
 
+(* ---- json (C20): n | t | f | z | s<hex> | a(v,v) | o(<hexkey>=v,...) ------------------ *)
+let ostring_of_hex h = String.concat "" (List.map (fun n -> String.make 1 (Char.chr (int_of_n n))) (bytes_of_hex h))
+let parse_json (s : string) : M.json =
+  let pos = ref 0 in
+  let peek () = s.[!pos] in
+  let adv () = incr pos in
+  let rec until_any stops acc =
+    if !pos >= String.length s || List.mem s.[!pos] stops then acc
+    else begin let c = s.[!pos] in adv (); until_any stops (acc ^ String.make 1 c) end in
+  let rec value () : M.json =
+    match peek () with
+    | 'n' -> adv (); M.JNum
+    | 't' -> adv (); M.JBool true
+    | 'f' -> adv (); M.JBool false
+    | 'z' -> adv (); M.JNull
+    | 's' -> adv (); let h = until_any [','; ')'; '='] "" in M.JStr (cstring (ostring_of_hex h))
+    | 'a' -> adv (); adv (); (* '(' *)
+      let items = ref [] in
+      if peek () = ')' then adv ()
+      else begin
+        let continue = ref true in
+        while !continue do
+          items := value () :: !items;
+          if peek () = ',' then adv () else begin adv (); continue := false end
+        done
+      end;
+      M.JArr (List.rev !items)
+    | 'o' -> adv (); adv ();
+      let items = ref [] in
+      if peek () = ')' then adv ()
+      else begin
+        let continue = ref true in
+        while !continue do
+          let k = until_any ['='] "" in
+          adv ();
+          let v = value () in
+          items := (cstring (ostring_of_hex k), v) :: !items;
+          if peek () = ',' then adv () else begin adv (); continue := false end
+        done
+      end;
+      M.JObj (List.rev !items)
+    | _ -> failwith "json"
+  in value ()
+let line_of_string s : M.line = if s = "X" then M.NotJson else M.J (parse_json s)
+let chunk_of_string s : M.chunk =
+  if s = "U" then M.Undecodable
+  else M.Lines (List.map line_of_string (split ';' (String.sub s 2 (String.length s - 2))))
+let rec string_of_json = function
+  | M.JNum -> "n" | M.JBool true -> "t" | M.JBool false -> "f" | M.JNull -> "z"
+  | M.JStr s -> "s:" ^ ostring s
+  | M.JArr l -> "a(" ^ String.concat "," (List.map string_of_json l) ^ ")"
+  | M.JObj l -> "o(" ^ String.concat "," (List.map (fun (k, v) -> ostring k ^ "=" ^ string_of_json v) l) ^ ")"
+
 (* ---- commands ------------------------------------------------------------------- *)
 let handle (line : string) : string =
   match List.filter (fun t -> t <> "") (split ' ' line) with
@@ -316,6 +369,36 @@ let handle (line : string) : string =
      | "datetime" -> show (M.set_datetime fs (z 0) (z 1) (z 2) (z 3) (z 4) (z 5))
      | "backup" -> show (M.sos_backup fs) | "clear" -> show (M.sos_clear fs)
      | _ -> failwith "helper")
+  | ["render"; tabs; name; fs] ->
+    let tables = if tabs = "-" then [] else List.map (fun x -> match split ':' x with
+        | [n; l] -> (cstring n, nat_of_int (int_of_string l)) | _ -> failwith "tables") (split ',' tabs) in
+    let rcls_of = function
+      | "plain" -> M.RPlain | "hex" -> M.RHex | "proto" -> M.RProto | "mode" -> M.RMode | "lever" -> M.RLever
+      | "gnssid" -> M.RGnssId | "flagsen" -> M.RFlagsEn | "algflags" -> M.RAlgFlags | "init1" -> M.RInit1
+      | "init2" -> M.RInit2 | "fusion" -> M.RFusion | "sens1" -> M.RSens1 | "sens2" -> M.RSens2
+      | "gpsfix" -> M.RGpsFix | "navflags" -> M.RNavFlags | _ -> failwith "rcls" in
+    let rfs = if fs = "-" then [] else List.map (fun x -> match split ':' x with
+        | [n; t; c; v; k] -> ((((cstring n, fty_of_string t), rcls_of c), fval_of_string v), n_of_string k)
+        | _ -> failwith "rfield") (split ',' fs) in
+    show_res (fun toks ->
+        "ok " ^ String.concat "," (List.filter_map (function
+            | M.TName s -> Some ("N=" ^ ostring s) | M.TField s -> Some (ostring s) | _ -> None) toks))
+      (M.render_frame tables (cstring name) rfs)
+  | ["rendercfg"; it] ->
+    show_res (fun _ -> "ok") (M.render_cfg (item_of_string it))
+  | ["scan"; interval; idle; evs] ->
+    let sc = { M.pending = rxevs_of_string evs; future = []; idle_dt = n_of_string idle } in
+    let (r, w) = M.scan M.scan_backend (nat_of_int 200000) (n_of_string interval) sc M.N0 in
+    Printf.sprintf "%s t=%s reads=%d" (match r with M.ScanTrue -> "True" | M.ScanNone -> "None" | M.ScanFuel -> "fuel")
+      (string_of_n w.M.sc_now) (List.length w.M.sc_rx)
+  | "gpsd" :: req :: chunks ->
+    let r = if req = "-" then None else Some (cstring (ostring_of_hex req)) in
+    show_res (fun g ->
+        Printf.sprintf "sel=%s enabled=%s release=%s"
+          (match g.M.g_sel with None -> "None" | Some d -> ostring d)
+          (if g.M.g_enabled then "True" else "False")
+          (match g.M.g_release with None -> "None" | Some j -> string_of_json j))
+      (M.parse_chunks (M.ginit r) (List.map chunk_of_string chunks))
   | ["enc"; fs] ->
     show_res hex_of_bytes (M.encode (fields_of_string fs))
   | ["cpack"; it] ->
